@@ -244,7 +244,7 @@ def kind_task(t):
 
 # ---- history part -----------------------------------------------------------------------------
 
-RICH = ["d1", "d2", "d3", "d4", "d5", "d6"]
+RICH = ["d1", "d2", "d3", "d4", "d5", "d6", "d7", "d8", "d9"]
 
 
 def hist_events():
@@ -252,7 +252,9 @@ def hist_events():
     for n in ("a", "b"):
         for d in RICH:
             ev.append(("add", n, d))
-        ev.append(("update", n, n, "d5"))
+        for d in RICH:
+            # every definition can replace every other one: what the set requires afterwards must follow the filters it then holds
+            ev.append(("update", n, n, d))
         ev.append(("update", n, "c", "d3"))
         ev.append(("replace", n, ("fresh", "d4"), None, None))
         ev.append(("remove", n))
@@ -316,7 +318,7 @@ def run(tier, seed):
     maxlen = 3 if tier == "quick" else 4
     tasks = [(i, False, maxlen) for i in range(len(COND_KINDS))] + [(i, True, maxlen) for i in range(len(ACTION_KINDS))]
     r1 = pool.run_tasks("checks.c06:kind_task", tasks, chunksize=2)
-    hdepth = 4 if tier == "quick" else 5
+    hdepth = 3 if tier == "quick" else 4
     r2 = pool.run_tasks("checks.c06:hist_task", [(i, hdepth) for i in range(len(hist_events()))])
     res = r1 + r2
     n = sum(r["n"] for r in res)
